@@ -194,6 +194,8 @@ def call_kwargs(c, return_utilities=True, variant=0):
         kw["X"], kw["y"] = kw["X"].tolist(), kw["y"].tolist()
         if kw["candidates"] is not None:
             kw["candidates"] = kw["candidates"].tolist()
+        if "sample_weight" in qp and c.cmode != "feat" and "sample_weight" not in kw and c.strategy_seed % 2:
+            kw["sample_weight"] = np.round(rng.rand(c.n) + 0.2, 2).tolist()      # ... and for the weights
     return kw
 
 
